@@ -117,18 +117,18 @@ CFG = {
     "trusted_base": [
         "Lean 4.33.0 kernel; axioms of every theorem printed by #print axioms must be within {propext, Classical.choice, Quot.sound}",
         "the CLIPLINE sweep of github.com/ctessum/polyclip-go v1.1.0 (everything in clipper.compute after its two trivial-case tests, and the connector) is a PARAMETER of the model with ONE explicit contract hypothesis, ClipLineSegsSpec (the segments of the returned pieces are, up to direction and order, the oracle's maximal inside parts): the headline (C14_exact_of_segs) and the length clause (C14_length) both rest on it; it is exercised and compared with the exact Rat oracle on every generated case, not proved. (C14_exact / C14_vertices / C14_empty_iff are also stated under the point-set form ClipLineSpec.)",
-        "T1: harness/cmd/c14/extract.go (go/ast, ~700 lines, translation table in its header) regenerates lean/GeomV/C14/Gen.lean from linestring.go / multilinestring.go / polygon.go (+ the Polygons() methods of multipolygon.go, bounds.go) of the tree under test on every run, in a faulting monad (index, slice, make are partial: GenLib.lean); Ties.lean proves that LineString.Clip, MultiLineString.Clip, clipLine, maxAbs, scalePath, Polygon.op, clipperOp, toPolyClip, polyClipToPolygon, Polygons as regenerated return WITHOUT FAULT exactly the model's clip (scaledCore core) / polyOp / clipperOp / polyClipToPolygon / polygonsOf. float64 is translated to the exact rational value (finite values only); math.Max / math.Abs / math.Ldexp / the exponent of math.Frexp are the hand-written GenLib.fmax / fabs / ldexp / frexpExp (the theorems use only that Ldexp(1, k) is positive, so they hold whatever exponent Frexp returns). Not modelled by the translation: slice capacity (taken = length) and aliasing (observed by the harness: operands compared with a snapshot after every call, histories on one object, concurrent callers; after every plain call a point is appended to every returned piece and all operands are overwritten, and the result must not change: answer `aliased` -> DIFF)",
-        "/repo fix (clipLine): operands whose largest absolute coordinate m satisfies 2^-1000 <= m < 1/2 are multiplied by 2^-e (m = f*2^e) before Polygon.op(.., CLIPLINE) and the pieces by the inverse. Scale.lean proves (clipLineM_eq) that this is the unchanged glue around the sweep conjugated by the scaling (scaledCore core): the two trivial-case tests of the clipper's head are invariant under a positive factor (trivialCase_scale), re-closing commutes with the scaling. The contract on the sweep is therefore a contract on the conjugated sweep - which is what the run compares per case. That the float multiplications are exact (power of two, no overflow, no subnormal result) is not formalised: the model multiplies rationals",
+        "T1: harness/cmd/c14/extract.go (go/ast, ~700 lines, translation table in its header) regenerates lean/GeomV/C14/Gen.lean from linestring.go / multilinestring.go / polygon.go (+ the Polygons() methods of multipolygon.go, bounds.go) of the tree under test on every run, in a faulting monad (index, slice, make are partial: GenLib.lean); Ties.lean proves that LineString.Clip, MultiLineString.Clip, clipLine, maxAbs, scalePath, Polygon.op, clipperOp, toPolyClip, polyClipToPolygon, Polygons as regenerated return WITHOUT FAULT exactly the model's clip (scaledCore core) / polyOp / clipperOp / polyClipToPolygon / polygonsOf. float64 is translated to the exact rational value (finite values only); math.Max / math.Abs / math.Ldexp / the exponent of math.Frexp are the hand-written GenLib.fmax / fabs / ldexp / frexpExp (hand-written, but proved against their documented contracts: frexpExp_spec / frexpExp_unique - 2^(e-1) <= m < 2^e determines e -, ldexp_eq_zpow; the glue theorems use only that Ldexp(1, k) is positive). Not modelled by the translation: slice capacity (taken = length) and aliasing (observed by the harness: operands compared with a snapshot after every call, histories on one object, concurrent callers; after every plain call a point is appended to every returned piece and all operands are overwritten, and the result must not change: answer `aliased` -> DIFF)",
+        "/repo fix (clipLine): operands whose largest absolute coordinate m satisfies 2^-1022 <= m < 1/2 (a normal number below 1/2; the bound was 2^-1000 before fix 67bac92) are multiplied by 2^-e (m = f*2^e) before Polygon.op(.., CLIPLINE) and the pieces by the inverse. Scale.lean proves (clipLineM_eq) that this is the unchanged glue around the sweep conjugated by the scaling (scaledCore core): the two trivial-case tests of the clipper's head are invariant under a positive factor (trivialCase_scale), re-closing commutes with the scaling. The contract on the sweep is therefore a contract on the conjugated sweep - which is what the run compares per case. The model multiplies rationals; Float.lean proves on an IEEE-754 binary64 model (IsF64; any rounding that is the identity on representable values) that for representable operands the float products of the way in equal them (C14_scale_up_exact, C14_float_scale_up: every product is representable and below 1; factor_spec: the factor is 2^k, 1 <= k <= 1021) and those of the way back whenever the product is zero or in the normal range (C14_scale_back_exact; a crossing point whose scaled-back value is subnormal is rounded to the subnormal grid). Figures all of whose coordinates are subnormal are NOT scaled and are clipped wrongly (known, not generated)",
         "the head of polyclip's clipper.compute (construct: the two trivial-case tests), BoundingBox and Overlaps are transcribed by hand in lean/GeomV/C01/Model.lean and pinned by version + go.sum hash + sha256 of clipper.go/geom.go/connector.go (pin_polyclip); tied by the correspondence run",
         "IEEE-754 rounding: crossing points are floats, compared with the oracle's exact rational crossing points to 1e-9 of the extent; lengths are summed in binary64 and compared to 1e-9 relative; inputs are exact (the oracle works on the rational values of the float inputs)",
         "harness/cmd/c14 (+ harness/cmd/c01/shapes) + lean driver + lib/vcheck.py transport inputs faithfully",
     ],
     "assumptions": ["finite coordinates; membership in P is the even-odd rule over all rings of all member polygons; the oracle is proved sound and complete (oracle_complete: off the finitely many crossing parameters a point of a segment is inside P iff its parameter lies in an oracle interval); the length clause is proved under the segment form of the contract (ClipLineSegsSpec)",
                     "closureOK (every crossing parameter of a line segment whose point lies on the boundary of P is covered by an inside interval) is no longer an assumption: closureOK_of_valid (Flip.lean) proves it from validC + gpLine ('a proper crossing flips the even-odd status': cross_lemma, inside_flip; the crossed edge is unique: uniqueHit_of_valid); C14_exact_of_segs' / C14_pointset_of_segs' / C14_src have no closure hypothesis. The judge still evaluates it on every in-quantifier case (DIFF if false - it would contradict the theorem)",
-                    "OUT OF SCOPE (stated, not checked against the Spec): non-simple lines (self-crossing, repeated vertices, closed lines, members whose interiors meet), invalid polygons, lines not in general position (a line vertex on the boundary, a polygon vertex on the line, collinear overlap). Such cases get the class suffix -outside-quantifier; for them only the theorems that hold for ALL inputs apply and are compared: no panic and the glue (C14_tie_*, C14_glue), no piece in the trivial cases (C14_trivial)"],
+                    "Beyond.lean states what holds outside the quantifier: the point-set characterisation by the oracle needs only distinct consecutive vertices and general position (plus the decidable closureOK for invalid polygons): C14_pointset_beyond / C14_pointset_nonsimple; simplicity is needed for the length clause, validity for closureOK, and the code returns nothing for a closed line inside P (closed_line_lost). OUT OF SCOPE (stated, not checked against the Spec): non-simple lines (self-crossing, repeated vertices, closed lines, members whose interiors meet), invalid polygons, lines not in general position (a line vertex on the boundary, a polygon vertex on the line, collinear overlap). Such cases get the class suffix -outside-quantifier; for them only the theorems that hold for ALL inputs apply and are compared: no panic and the glue (C14_tie_*, C14_glue), no piece in the trivial cases (C14_trivial)"],
     "rule": "simple open integer-grid polylines (random walks, zigzags with many crossings, walks entirely inside, entirely outside within the box, box-disjoint, straight through) and multi-line strings of 1-4 members that are pairwise disjoint or form a network (two routes between the same junctions with equal / different vertex counts and either direction, branches at a common end point; interiors never cross) "
             "against polygons with holes / multi-polygons / boxes at half-integer offsets (no line vertex on the boundary, no polygon vertex on the line: rejected by exact int64 tests); "
-            "40% of the cases at coordinate scales 2^-20/2^-24/2^-30/2^+20 (dyadic: exact), multi-call histories on one line with operands overwritten in place, operands over one flat backing array and compared with a snapshot after each call, size-threshold cases (vertex/ring/member counts beyond 64/128/1024; lines of 1024..3000 vertices; multi-line strings of 63..257 (thorough: ..2049) members, each with an inside part of a different length); "
+            "40% of the cases at coordinate scales 2^-20/2^-24/2^-30/2^-40/2^-60/2^-400/2^+20 (dyadic: exact), the ordinary families placed in ONE quadrant (all coordinates <= 0; x <= 0 <= y; y <= 0 <= x; all >= 0; extreme coordinate exactly 0 or not) at scales 2^-24..2^-1018 and a corpus at 2^-1003..2^-1024, lines whose vertices lie inside the bounding box of a hole that is not a rectangle (diamond, triangle, L) or on an island inside a hole, a tiny figure with one more member line of ordinary size far away, histories that change the coordinate scale between calls, multi-call histories on one line with operands overwritten in place, operands over one flat backing array and compared with a snapshot after each call, size-threshold cases (vertex/ring/member counts beyond 64/128/1024; lines of 1024..3000 vertices; multi-line strings of 63..257 (thorough: ..2049) members, each with an inside part of a different length); "
             "closed CYCLES of 3..6 member lines through shared junctions inside P (hole of P inside the block, a street leaving P from a junction, a chord, a free member; member order and directions shuffled); "
             "multi-polygons with empty / nil member polygons first, in the middle and last; non-rectangular 3- and 4-vertex polygons (diamond, dart, trapezoid, triangle) with lines strictly inside their bounding box; "
             "a non-dyadic affine family (scales 0.1, 1/3, 0.7, 1.1e-3, 37.3 and offsets 1000.37, -512.9: full 53-bit mantissas); "
